@@ -43,6 +43,12 @@
   `unitary_component_amplitude_composes` (C02's composition law instantiated on the rewritten list: one recursion
   step per list element).  Still not proved: the closed form of the whole circuit's DISTRIBUTION as a composition
   of the per-channel thinning laws (amplitudes compose, probabilities do not); annotated photons.
+  Wave 10 (proofs only): `loss_detector_selection_nothing_passes` / `loss_detector_selection_perf_product_total`
+  (the filter case excluded by `loss_detector_selection_is_conditioning`: `physical_perf = 0`, product = retained
+  probability, no hypothesis on the filter); the same for the noisy-source pipeline, including the case where the
+  inner simulator drops every input: `loss_noisy_selection_nothing_passes` /
+  `loss_noisy_selection_perf_product_total`.  Still not proved: the code's own `logical_perf` value in the
+  nothing-passes case of these two pipelines (it is multiplied by `physical_perf = 0`).
 -/
 import PercevalModel.Lemmas.C07
 import PercevalModel.Lemmas.C07Mass
@@ -52,6 +58,7 @@ import PercevalModel.Lemmas.C07Sel
 import PercevalModel.Lemmas.C07Det
 import PercevalModel.Lemmas.C07Mix
 import PercevalModel.Lemmas.C07More
+import PercevalModel.Lemmas.C07W10
 import PercevalModel.Props.C02
 
 open Matrix
@@ -1289,6 +1296,158 @@ theorem loss_noisy_selection_end_to_end (M N : ℕ) (items : Items GQ) (hwf : WF
   refine ⟨h1 hr, ?_, h2, h3, ?_⟩
   · rw [h1 hr]; exact SimSpec.conditioned_mass_one _ _ hr
   · rw [h2, h3]; exact SimSpec.perf_product _ _ hp
+
+/-! ## Wave 10 — the detector pipeline when nothing passes the photon filter -/
+
+/-- **loss_detector_selection_nothing_passes** (the case `loss_detector_selection_is_conditioning` excludes): under
+the same hypotheses on the enlarged matrix, the detector list, the input and the selection, when NOTHING of the
+detected marginal distribution passes the photon filter the pipeline reports `physical_perf = 0`, hence
+`physical_perf · logical_perf = 0`, which is the retained probability; the specification's `logical_perf` is `0`
+by convention (the code's own `logical_perf` in this case is whatever the normalisations leave — it is multiplied
+by `0`). -/
+theorem loss_detector_selection_nothing_passes {N : ℕ} (σ : Sel) (ds : List DetK)
+    (U : Matrix (Fin N) (Fin N) GQ) (M : ℕ) (hMN : M ≤ N) (hds : ds.length = M) (s : List ℕ)
+    (hs : σ.minDet ≤ s.sum) (hst : ∀ d ∈ ds, Stoch d.kern)
+    (hnn : ∀ d ∈ ds, ∀ n, ∀ e ∈ d.kern n, (0 : ℚ) ≤ e.2)
+    (hmix : detType (padDetectors M N ds) ≠ .pnr)
+    (hd : Dist.mass (fullDist U (prepareInput M N s)) = 1)
+    (hp : SimSpec.physPerf σ.cond (detectMarginal ds U M s) = 0) :
+    (lossDetSvd σ ds U M s).2.2 = 0 ∧
+      SimSpec.logicalPerf σ.cond (detectMarginal ds U M s) = 0 ∧
+      Dist.mass (SimSpec.retained σ.cond (detectMarginal ds U M s)) = 0 ∧
+      (lossDetSvd σ ds U M s).2.2 * (lossDetSvd σ ds U M s).2.1 =
+        Dist.mass (SimSpec.retained σ.cond (detectMarginal ds U M s)) := by
+  have hpx := loss_detectors_act_on_marginal U M hMN ds hds s
+  have hkst : ∀ k ∈ (padDetectors M N ds).map DetK.kern, Stoch k := by
+    intro k hk
+    rw [map_kern_pad] at hk
+    rcases List.mem_append.1 hk with h | h
+    · obtain ⟨d, hd', rfl⟩ := List.mem_map.1 h
+      exact hst d hd'
+    · rw [(List.mem_replicate.1 h).2]; exact stoch_none
+  have hknn : ∀ k ∈ (padDetectors M N ds).map DetK.kern, ∀ n, ∀ e ∈ k n, (0 : ℚ) ≤ e.2 := by
+    intro k hk
+    rw [map_kern_pad] at hk
+    rcases List.mem_append.1 hk with h | h
+    · obtain ⟨d, hd', rfl⟩ := List.mem_map.1 h
+      exact hnn d hd'
+    · rw [(List.mem_replicate.1 h).2]
+      intro n e he
+      simp only [DetK.kern, List.mem_singleton] at he
+      rw [he]; norm_num
+  have hmx := mass_detectAll _ (fullDist U (prepareInput M N s)) hkst
+  rw [hd] at hmx
+  have hnx := nonneg_detectAll _ _ hknn (nonneg_fullDist U (prepareInput M N s))
+  have hne : (fullDist U (prepareInput M N s)).isEmpty = false := by
+    cases h : fullDist U (prepareInput M N s) with
+    | nil => rw [h] at hd; simp at hd
+    | cons a b => rfl
+  have hmain := simDet_post_nothing_passes σ M _ hmx hnx (by rw [hpx]; exact hp)
+  have hret := retained_mass_zero_of_physPerf_zero σ.cond _ (nonneg_detectMarginal ds U M s hnn) hp
+  have h0 : (lossDetSvd σ ds U M s).2.2 = 0 := by
+    unfold lossDetSvd
+    rw [if_neg (not_lt.2 hs)]
+    unfold simDetectors
+    simp only [hne, hmix, decide_false, Bool.or_self, Bool.false_eq_true, ↓reduceIte]
+    exact hmain
+  refine ⟨h0, ?_, hret, ?_⟩
+  · unfold SimSpec.logicalPerf; rw [if_pos hp]
+  · rw [h0, hret, zero_mul]
+
+/-- **loss_detector_selection_perf_product_total**: WITHOUT any hypothesis on the photon filter — for every enlarged
+matrix with a normalised distribution, every selection, every non-PNR detector list with non-negative
+row-stochastic kernels and every input the forwarded filter lets through: `physical_perf` is the specification's
+`physPerf` of the detected marginal and `physical_perf · logical_perf` is exactly the retained probability. -/
+theorem loss_detector_selection_perf_product_total {N : ℕ} (σ : Sel) (ds : List DetK)
+    (U : Matrix (Fin N) (Fin N) GQ) (M : ℕ) (hMN : M ≤ N) (hds : ds.length = M) (s : List ℕ)
+    (hs : σ.minDet ≤ s.sum) (hst : ∀ d ∈ ds, Stoch d.kern)
+    (hnn : ∀ d ∈ ds, ∀ n, ∀ e ∈ d.kern n, (0 : ℚ) ≤ e.2)
+    (hmix : detType (padDetectors M N ds) ≠ .pnr)
+    (hd : Dist.mass (fullDist U (prepareInput M N s)) = 1) :
+    (lossDetSvd σ ds U M s).2.2 = SimSpec.physPerf σ.cond (detectMarginal ds U M s) ∧
+      (lossDetSvd σ ds U M s).2.2 * (lossDetSvd σ ds U M s).2.1 =
+        Dist.mass (SimSpec.retained σ.cond (detectMarginal ds U M s)) := by
+  by_cases hp : SimSpec.physPerf σ.cond (detectMarginal ds U M s) = 0
+  · obtain ⟨h1, _, _, h4⟩ := loss_detector_selection_nothing_passes σ ds U M hMN hds s hs hst hnn hmix hd hp
+    exact ⟨by rw [h1, hp], h4⟩
+  · obtain ⟨_, h2, h3⟩ := loss_detector_selection_is_conditioning σ ds U M hMN hds s hs hst hnn hmix hd hp
+    exact ⟨h3, by rw [h2, h3]; exact SimSpec.perf_product _ _ hp⟩
+
+/-- non-vacuity of `loss_detector_selection_nothing_passes`: the identity on one mode, a threshold detector, one
+photon, a caller filter of one photon and a herald expecting one more photon on the same mode: the input passes
+the forwarded filter, the detected marginal is normalised and nothing reaches the filter of two photons -/
+example : (⟨[(0, 1)], .tt, 1, false⟩ : Sel).minDet ≤ ([1] : List ℕ).sum ∧
+    detType (padDetectors 1 1 [.thr]) ≠ .pnr ∧
+    Dist.mass (fullDist (1 : Matrix (Fin 1) (Fin 1) GQ) (prepareInput 1 1 [1])) = 1 ∧
+    SimSpec.physPerf (⟨[(0, 1)], .tt, 1, false⟩ : Sel).cond
+      (detectMarginal [.thr] (1 : Matrix (Fin 1) (Fin 1) GQ) 1 [1]) = 0 := by
+  refine ⟨by decide, by decide, by decide +kernel, by decide +kernel⟩
+
+/-- **loss_noisy_selection_nothing_passes** (the case `loss_noisy_selection_is_conditioning` excludes): under the
+same hypotheses on the enlarged matrix and the source distribution, for every selection, when NOTHING of the
+mixture of the marginal distributions passes the photon filter (this includes the case where the inner simulator
+dropped every input of the source distribution), `LossSimulator.probs_svd` reports `physical_perf = 0`, hence
+`physical_perf · logical_perf = 0`, which is the retained probability; the specification's `logical_perf` is `0`
+by convention. -/
+theorem loss_noisy_selection_nothing_passes {N : ℕ} (σ : Sel) (U : Matrix (Fin N) (Fin N) GQ) (M : ℕ)
+    (src : List (ℚ × List ℕ)) (hw : (src.map (·.1)).sum = 1) (hnn : ∀ ws ∈ src, (0 : ℚ) ≤ ws.1)
+    (hd : ∀ ws ∈ src, Dist.mass (fullDist U (prepareInput M N ws.2)) = 1)
+    (hp : SimSpec.physPerf σ.cond (lossProbsMix U M src) = 0) :
+    (lossMixSvdSel σ U M src).2.2 = 0 ∧
+      SimSpec.logicalPerf σ.cond (lossProbsMix U M src) = 0 ∧
+      Dist.mass (SimSpec.retained σ.cond (lossProbsMix U M src)) = 0 ∧
+      (lossMixSvdSel σ U M src).2.2 * (lossMixSvdSel σ U M src).2.1 =
+        Dist.mass (SimSpec.retained σ.cond (lossProbsMix U M src)) := by
+  have hkn : ∀ ws ∈ src.filter (passes σ), (0 : ℚ) ≤ ws.1 := fun ws h => hnn ws (List.mem_filter.1 h).1
+  have hkd : ∀ ws ∈ src.filter (passes σ), Dist.mass (fullDist U (prepareInput M N ws.2)) = 1 :=
+    fun ws h => hd ws (List.mem_filter.1 h).1
+  have hny := nonneg_enlargedMix U M _ hkn
+  have hmain := inner_drop_post_nothing_passes σ M (enlargedMix U M src) (enlargedMix U M (src.filter (passes σ)))
+    hny (restrict_physOk_kept σ U M src) (by rw [postprocess_enlargedMix]; exact hp)
+  have hmy := mass_enlargedMix U M _ hkd
+  have hsplit := sum_filter_split (passes σ) src
+  rw [hw] at hsplit
+  have hwy : 1 - ((src.filter fun ws => !passes σ ws).map (·.1)).sum =
+      Dist.mass (enlargedMix U M (src.filter (passes σ))) := by rw [hmy]; linarith
+  have hret := retained_mass_zero_of_physPerf_zero σ.cond _ (nonneg_lossProbsMix U M src hnn) hp
+  have h0 : (lossMixSvdSel σ U M src).2.2 = 0 := by
+    unfold lossMixSvdSel
+    by_cases he : (enlargedMix U M (src.filter (passes σ))).isEmpty = true
+    · simp only [he, ↓reduceIte, hwy]
+      rw [List.isEmpty_iff.1 he]
+      simp
+    · simp only [he, Bool.false_eq_true, ↓reduceIte, hwy]
+      by_cases hW : Dist.mass (enlargedMix U M (src.filter (passes σ))) = 0
+      · rw [hW, zero_mul]
+      · rw [Dist.normalize_of_mass_one _ (Dist.mass_normalize _ hW)] at hmain
+        exact hmain
+  refine ⟨h0, ?_, hret, ?_⟩
+  · unfold SimSpec.logicalPerf; rw [if_pos hp]
+  · rw [h0, hret, zero_mul]
+
+/-- **loss_noisy_selection_perf_product_total**: WITHOUT any hypothesis on the photon filter — for every enlarged
+matrix, every source distribution of Fock inputs with non-negative weights summing to one whose members give
+normalised enlarged distributions, and every selection: `physical_perf` is the specification's `physPerf` of the
+mixture of the marginal distributions and `physical_perf · logical_perf` is exactly the retained probability. -/
+theorem loss_noisy_selection_perf_product_total {N : ℕ} (σ : Sel) (U : Matrix (Fin N) (Fin N) GQ) (M : ℕ)
+    (src : List (ℚ × List ℕ)) (hw : (src.map (·.1)).sum = 1) (hnn : ∀ ws ∈ src, (0 : ℚ) ≤ ws.1)
+    (hd : ∀ ws ∈ src, Dist.mass (fullDist U (prepareInput M N ws.2)) = 1) :
+    (lossMixSvdSel σ U M src).2.2 = SimSpec.physPerf σ.cond (lossProbsMix U M src) ∧
+      (lossMixSvdSel σ U M src).2.2 * (lossMixSvdSel σ U M src).2.1 =
+        Dist.mass (SimSpec.retained σ.cond (lossProbsMix U M src)) := by
+  by_cases hp : SimSpec.physPerf σ.cond (lossProbsMix U M src) = 0
+  · obtain ⟨h1, _, _, h4⟩ := loss_noisy_selection_nothing_passes σ U M src hw hnn hd hp
+    exact ⟨by rw [h1, hp], h4⟩
+  · obtain ⟨_, h2, h3⟩ := loss_noisy_selection_is_conditioning σ U M src hw hnn hd hp
+    exact ⟨h3, by rw [h2, h3]; exact SimSpec.perf_product _ _ hp⟩
+
+/-- non-vacuity of `loss_noisy_selection_nothing_passes`: the identity on one mode, the source emits one photon
+with certainty, the caller's filter asks for two: the inner simulator drops the only input -/
+example : (([((1 : ℚ), [1])] : List (ℚ × List ℕ)).map (·.1)).sum = 1 ∧
+    Dist.mass (fullDist (1 : Matrix (Fin 1) (Fin 1) GQ) (prepareInput 1 1 [1])) = 1 ∧
+    SimSpec.physPerf (⟨[], .tt, 2, false⟩ : Sel).cond
+      (lossProbsMix (1 : Matrix (Fin 1) (Fin 1) GQ) 1 [((1 : ℚ), [1])]) = 0 := by
+  refine ⟨by decide +kernel, by decide +kernel, by decide +kernel⟩
 
 /-- **evolve_superposition_linear**: `LossSimulator.evolve` on a superposition input (any number of terms, any
 complex coefficients, terms of different photon numbers allowed) is, contribution by contribution and in order,
